@@ -14,6 +14,7 @@ nothing else (C02), so they expose the same set.  NOT decided: values of attribu
 attributes than the bound precede an exposed one are covered by the closure of the memory, not by enumeration."""
 from rules import walk_e2 as W
 
+THOROUGH_CONFIGS = ("release", "arbitrary")
 LEVEL = "proof"
 
 
